@@ -121,14 +121,7 @@ func run(r *evid.Run) {
 		}
 		r.Incomplete("partial run: VERIF_C08_PARTS=" + sel)
 	}
-	if parts["A"] {
-		e.memo = newMemo()
-		e.partA(k)
-		if !r.Expired() {
-			e.purity()
-		}
-		e.memo = nil
-	}
+	// cheap parts first, so that an overloaded machine cuts only the tail of part A
 	if parts["A2"] {
 		e.partBytes()
 	}
@@ -137,6 +130,14 @@ func run(r *evid.Run) {
 	}
 	if parts["C"] {
 		e.partC(k)
+	}
+	if parts["A"] {
+		e.memo = newMemo()
+		e.partA(k)
+		if !r.Expired() {
+			e.purity()
+		}
+		e.memo = nil
 	}
 
 	// coverage facts and vacuity guards
@@ -201,11 +202,8 @@ func (e *explorer) partA(k int) {
 		caseCounter += n
 	}
 	e.r.Set("A_file_sets", caseCounter)
-	// larger subsets first so the long items do not end up as stragglers
-	idx := identity(len(subsets))
-	sort.SliceStable(idx, func(a, b int) bool { return len(subsets[idx[a]]) > len(subsets[idx[b]]) })
-	e.r.ParallelFor(len(idx), 0, func(w int) {
-		si := idx[w]
+	// simplest first (enum.Subsets order): a deadline cuts the largest file sets, never the small ones
+	e.r.ParallelFor(len(subsets), 0, func(si int) {
 		subset := subsets[si]
 		t := tally{}
 		dims := make([]int, len(subset))
